@@ -18,6 +18,8 @@ import (
 	"testing"
 
 	"github.com/bool64/cache"
+	modela "verif/harness/typesa/model"
+	modelb "verif/harness/typesb/model"
 )
 
 type xferCfg struct {
@@ -379,6 +381,10 @@ func TestGobHashChild(t *testing.T) {
 			vals = append(vals, hashTC{})
 		case "D":
 			vals = append(vals, hashTD{})
+		case "E": // E and F: two DIFFERENT types that reflect prints alike ("model.User")
+			vals = append(vals, modela.User{})
+		case "F":
+			vals = append(vals, modelb.User{})
 		}
 	}
 
@@ -413,12 +419,12 @@ func TestGobHashOrders(t *testing.T) {
 	defer f.Close()
 
 	enc := json.NewEncoder(f)
-	pool := []string{"A", "B", "C", "D"}
+	pool := []string{"A", "B", "C", "D", "E", "F"}
 
 	var specs [][]string
 
 	// every subset in canonical order once, then random orders with repetitions
-	for m := 0; m < 16; m++ {
+	for m := 0; m < 16; m++ { // subsets of A-D; E and F come in below
 		var s []string
 
 		for i, p := range pool {
@@ -430,12 +436,14 @@ func TestGobHashOrders(t *testing.T) {
 		specs = append(specs, s)
 	}
 
+	specs = append(specs, []string{"E"}, []string{"F"}, []string{"E", "F"}, []string{"F", "E"}, []string{"A", "F", "E"})
+
 	for len(specs) < n {
 		k := 1 + rng.Intn(6)
 		s := make([]string, k)
 
 		for i := range s {
-			s[i] = pool[rng.Intn(4)]
+			s[i] = pool[rng.Intn(len(pool))]
 		}
 
 		specs = append(specs, s)
